@@ -19,7 +19,20 @@ RDIR = os.path.join(gentree.WORK, "replay")
 RTREE = os.path.join(gentree.WORK, "rtree")
 RKANI = os.path.join(gentree.WORK, "rkani")
 
-RE_TEST = re.compile(r"```\s*\n(#\[test\]\nfn (kani_concrete_playback_\w+)\(\) \{.*?\n\})\s*\n```", re.S)
+RE_BLOCK = re.compile(r"```\s*\n(.*?)\n```", re.S)
+RE_FN = re.compile(r"(#\[test\]\nfn (kani_concrete_playback_\w+)\(\) \{.*?\n\})", re.S)
+
+
+def pick_test(text):
+    """First generated unit test that belongs to a failed *check* (not to a cover! witness)."""
+    for m in RE_BLOCK.finditer(text):
+        blk = m.group(1)
+        if "Check for `cover`" in blk:
+            continue
+        f = RE_FN.search(blk)
+        if f:
+            return f.group(1), f.group(2)
+    return None, None
 
 
 def _find_harness_file(name):
@@ -47,18 +60,17 @@ def replay(h, r):
     env = dict(os.environ, CARGO_NET_OFFLINE="true", CARGO_TERM_COLOR="never")
     try:
         p = subprocess.run(cmd, cwd=gentree.TREE, env=env, capture_output=True, text=True,
-                           timeout=h.timeout * 2, preexec_fn=runner._limit(h.mem))
+                           timeout=h.timeout * 2, preexec_fn=runner._limit(max(32, h.mem)))
     except subprocess.TimeoutExpired:
         out["why"] = "concrete playback generation timed out"
         return out
     text = p.stdout + p.stderr
-    m = RE_TEST.search(text)
-    if not m:
+    test_code, test_name = pick_test(text)
+    if not test_code:
         out["why"] = "no concrete playback test in output"
         with open(out["path"], "w") as f:
             f.write("// no concrete playback test was produced\n// failed checks: %s\n" % r["reason"])
         return out
-    test_code, test_name = m.group(1), m.group(2)
     header = ("// Replay artifact: Kani concrete playback of harness `%s` (property %s)\n"
               "// failed checks: %s\n// run: /verif/bin/check %s --replay %s\n"
               % (h.name, h.prop, r["reason"].replace("\n", " "), h.prop, out["path"]))
